@@ -32,6 +32,9 @@ def gen(tier, rng, harness=None, driver=None):
     # M-Meta: undefined and doubly defined metadata IDs on real text (printed sections and their mutants) through the proved translation and the real parser
     from . import metagen
     lines += metagen.parse_stream(rng, driver, n)
+    # M-Whole: names across fragments (a function named like a global, two functions of one name, a named type nothing defines, a type defined twice)
+    from . import wholegen
+    lines += wholegen.parse_stream(rng, driver, n // 2)
     # systematic: every definition-site kind x every use-site kind of one function body under confusable namings (vlib/localgen.py)
     for kind, exp, text, sk in localgen.cases(rng, 20 if tier == "quick" else 400):
         lines.append("mod.outcome %s %s" % (hx(sk), hx(text)))
@@ -46,6 +49,9 @@ def gen(tier, rng, harness=None, driver=None):
     corp = [("corpus-%d" % i, t) for i, t in enumerate(modprops.corpus_texts())]
     for kind, nm, ft in refsites.cases(corp, rng, per_text=40 if tier == "quick" else 2000):
         lines.append("!mod.mustfail - %s" % hx(ft))
+    # an explicit ID that reads as zero at a position that is not the first unnamed value (any spelling: `%0`, `%00`, `00:`) must be rejected, not renumbered
+    for kind, text in localgen.zero_spellings():
+        lines.append("!mod.mustfail - %s" % hx(text))
     for m, text, sk in modprops.gen_modules(rng, n):
         lines.append("mod.outcome %s %s" % (hx(sk), hx(text)))
         for kind, exp, ft, fsk in modgen.faults(rng, text, sk):
@@ -63,7 +69,7 @@ def nontrivial(ln, model_out):
 
 def search(ln, a, b, harness, driver):
     p = ln.split()
-    if p[0].startswith(("core3.", "meta.")):
+    if p[0].startswith(("core3.", "meta.", "whole.")):
         # the proved translation rejects what the implementation accepts (or the other way round): the text itself is the failing input
         if (a.split()[0] == "ok") != (b.split()[0] == "ok"):
             return {"ops": [ln], "impl": [a], "model": [b]}
